@@ -50,7 +50,14 @@ class Heartbeat(core.Scenario):
         self.mode = p['mode']
         self.ws = None
         self.tr = p['transport']
-        if self.tr == 'ws_only':
+        if self.tr == 'ws_dropped':
+            # a WebSocket open whose peer is gone before the handshake can be answered: the application has seen the
+            # connect event, nobody will ever speak for this session
+            w.ws(peer.WSQ, fail_accept=True)
+            w.run()
+            self.sid = [e[1] for e in w.events if e[0] == 'connect'][-1]
+            self.stopped = True
+        elif self.tr == 'ws_only':
             self.ws = peer.ws_open(w)
             self.sid = [e[1] for e in w.events if e[0] == 'connect'][-1]
         else:
@@ -61,7 +68,7 @@ class Heartbeat(core.Scenario):
         self.pings_seen = []        # instants at which the client saw a PING
         self.pong_at = []           # instants at which the client sent a PONG
         self.frames_seen = 0
-        self.stopped = False
+        self.stopped = getattr(self, 'stopped', False)
         self.client = []            # polls (immediate)
         self.pongs = []             # timed PONGs
         self.app = []
@@ -168,7 +175,7 @@ class Heartbeat(core.Scenario):
                     cont = False
                 if cont and not self.stopped:
                     self.client.append(self._poll_action())
-        else:
+        elif self.ws is not None:
             fr = self.ws.frames
             while self.frames_seen < len(fr):
                 f = fr[self.frames_seen]
@@ -191,8 +198,8 @@ class Heartbeat(core.Scenario):
         seen = list(self.pings_seen)
         late_idx = [i for i, d in enumerate(p['delays']) if d in ('exact', 'late')]
         upto = (late_idx[0] + 1) if late_idx else len(expect)
-        if p.get('stall') == 'before_ping':
-            pass        # the stalled client is not reading when the PING is emitted
+        if p.get('stall') == 'before_ping' or p['transport'] == 'ws_dropped':
+            pass        # nobody is reading when the PING is emitted
         elif seen[:upto] != expect[:min(upto, len(seen))] or (punctual and len(seen) < len(expect) and not
                                                             (self.send_call is not None and disc)):
             self.flag('ping_instants_wrong', 'PING seen at %r, expected %r (PONGs sent at %r)' % (seen, expect, self.pong_at), trigger=trig)
@@ -202,7 +209,7 @@ class Heartbeat(core.Scenario):
         first_unanswered = None
         if punctual and len(seen) > len(p['delays']):
             first_unanswered = seen[len(p['delays'])]
-        if p.get('stall'):
+        if p.get('stall') or p['transport'] == 'ws_dropped':
             first_unanswered = t0 + iv          # emitted at open + interval whether or not the stalled client reads it
         if disc and punctual:
             limit = (first_unanswered + to) if first_unanswered is not None else None
@@ -265,6 +272,10 @@ def param_list(ctx):
     else:
         seqs += list(itertools.product(names, repeat=2)) + [('early', 'zero', 'early'), ('zero', 'zero', 'late')]
     for impl in ('sync', 'async'):
+        for g in grid:
+            for mon in (True, False):
+                ps.append({'impl': impl, 'grid': list(g), 'transport': 'ws_dropped', 'delays': [], 'mode': 'vanish', 'monitor': mon,
+                           'send_at': None if mon else g[0] + g[1] + 0.25})
         for g in grid:
             iv, to, gr = g
             for tr in ('polling', 'websocket') + (() if ctx.quick else ('ws_only',)):
